@@ -21,6 +21,7 @@ import (
 //   rollingWindow      RollingWindow vs WindowModel (rwmodel.go), single client, boundary instants
 //   cacheSequential    Cache (+ its timing wheel on the virtual clock) vs the nondeterministic cache model
 //   cacheConcurrent    2-4 clients on one Cache, history decided by porcupine
+//   cacheRecency       limited Cache, far from any expiry: pre-fill, concurrent phase, sequential re-fill and sweep; exact LRU
 //   cacheMulti         2-3 Caches in one process, same keys, clients across them; one history and model per cache
 //   safeMapConcurrent  / queueConcurrent / ringConcurrent: porcupine
 //   safeMapLong        >10000 deletions across SafeMap's generation switch, direct map model
@@ -29,7 +30,9 @@ import (
 func init() { logx.Disable() }
 
 func body(r *simrt.Run, tier string) {
-	switch r.Tape.Intn(16) {
+	switch r.Tape.Intn(18) {
+	case 16, 17:
+		cacheRecency(r, tier)
 	case 0, 8:
 		rollingWindow(r, tier)
 	case 14:
